@@ -611,6 +611,7 @@ def _case(task):
         out['from_file'] = _slim(r)
         out['size'] = sum(len(v) for v in files.values())
         out['depth'] = max([_nesting(v) for v in files.values()] or [0])
+        out['nfiles'] = len(files)
         out['hash'] = D.sha('\0'.join('%s\0%s' % (k, v if isinstance(v, str) else v.decode('latin1'))
                                        for k, v in sorted(files.items())))
         if task.get('all_apis') or r['outcome'] == 'ok':
@@ -729,6 +730,15 @@ def case_deviations(task, res):
             devs.append(('NEW-process-crash-%s' % api, '%s kills the interpreter' % api))
         elif oc == 'cpe' and not r.get('cpe_ok', True):
             devs.append(('NEW-config-error-without-context', '%s: configuration error without context / message' % api))
+        if oc in ('cpe', 'ok') and res.get('depth', 0) < 100 and (
+                'too many nested levels' in (r.get('msg') or '') or
+                r.get('yaml_loads', 0) > 100 + 20 * max(1, res.get('nfiles', 1))):
+            # the recursion limit guard of the front end turns ANY exhausted recursion into a configuration error; on a
+            # document that is not deeply nested this is unbounded recursion (e.g. an inclusion cycle that is not detected)
+            devs.append(('NEW-unbounded-recursion-on-flat-input-%s' % api,
+                         '%s recurses without bound on a document of nesting depth %d made of %d file(s): %d YAML documents loaded, %s' % (
+                             api, res.get('depth', 0), res.get('nfiles', 1), r.get('yaml_loads', 0),
+                             ('reported as: ' + (r.get('msg') or '')[:160]) if oc == 'cpe' else 'accepted')))
     ff, ef = res.get('from_file'), res.get('effective')
     if ff and ef and ff['outcome'] in ('ok', 'cpe') and ef['outcome'] in ('ok', 'cpe') and ff['outcome'] != ef['outcome']:
         devs.append(('NEW-effective-differs-from-load', 'configuration_from_file: %s but effective_configuration_file: %s'
